@@ -9,7 +9,7 @@ namespace Genlm
 (str, int, tuple, namedtuple, frozenset …).  Binary `cons` so that `DecidableEq` derives. -/
 inductive Sx where
   | s (v : String) | i (v : Int) | nil | cons (a b : Sx)
-deriving Repr, DecidableEq, Inhabited, BEq, Hashable, Ord
+deriving Repr, DecidableEq, Inhabited
 
 /-- `tag "T" [a,b]` = Python tuple `(a,b)`; `tag "Slash" [Y,Z,i]` = namedtuple. -/
 def Sx.tag (t : String) (xs : List Sx) : Sx := .cons (.s t) (xs.foldr .cons .nil)
